@@ -162,8 +162,16 @@ func (c *Conn) Write(p []byte) (int, error) {
 		hook(k, "write", "enter")
 	}
 	c.mu.Lock()
+	taken := 0 // bytes of p the peer took before its window was full (reported together with the error)
 	for {
 		var err error
+		if c.blockAfter > 0 && !c.writeBlocks && !c.closed && len(c.out) < c.blockAfter && len(c.out)+len(p) > c.blockAfter {
+			// The peer's window takes a part of this write; the rest waits.
+			k := c.blockAfter - len(c.out)
+			c.out = append(c.out, p[:k]...)
+			p = p[k:]
+			taken += k
+		}
 		switch {
 		case c.closed:
 			err = errSimClosed
@@ -171,7 +179,7 @@ func (c *Conn) Write(p []byte) (int, error) {
 			err = timeoutError{}
 		case !c.writeBlocks && !(c.blockAfter > 0 && len(c.out)+len(p) > c.blockAfter):
 			c.out = append(c.out, p...)
-			c.log(Event{Op: "write", N: len(p)})
+			c.log(Event{Op: "write", N: taken + len(p)})
 			fire := !c.reqDone && strings.Contains(string(c.out), "\r\n\r\n")
 			if fire {
 				c.reqDone = true
@@ -184,12 +192,12 @@ func (c *Conn) Write(p []byte) (int, error) {
 			if hook != nil {
 				hook(k, "write", "exit")
 			}
-			return len(p), nil
+			return taken + len(p), nil
 		}
 		if err != nil {
-			c.log(Event{Op: "write", Err: errName(err)})
+			c.log(Event{Op: "write", N: taken, Err: errName(err)})
 			c.mu.Unlock()
-			return 0, err
+			return taken, err
 		}
 		c.cond.Wait()
 	}
@@ -336,6 +344,7 @@ type scenario struct {
 	DLFail       bool          // WrapConn returns a layer whose deadline calls fail and change nothing (a transport without deadlines); only with peers that answer
 	WrapOwn      bool          // WrapConn returns a layer that keeps the deadlines itself (deadline calls on the conn below it change nothing)
 	CompanionWin int           // Companion: how many bytes of its request the companion's peer takes before it stalls
+	WriteWin     int           // Peer 3 only: how many bytes of the request the peer takes before it stalls (0: none)
 	Offers       bool          // the Dialer offers extensions and subprotocols (the peer accepts none of them)
 	Companion    bool          // another Dial of the process is in progress (blocked writing its request) while this one runs
 	HTTPHeader   bool          // BigHeader only: the headers are an http.Header given through ws.HandshakeHeaderHTTP
@@ -361,8 +370,8 @@ type scenario struct {
 }
 
 func (s scenario) String() string {
-	return fmt.Sprintf("debug=%d wrapown=%v dlfail=%v bighdr=%v(http=%v) companion=%v/%d offers=%v ctx=%d/%d(dl=%v cause=%v own=%v) timeout=%v connect=%v(ignoreCtx=%v) tls=%v(real=%v) statusBody=%v wrap=%v peer=%d respDelay=%v segs=%d gap=%v trailing=%v rbuf=%d segmax=%d",
-		s.Debug, s.WrapOwn, s.DLFail, s.BigHeader, s.HTTPHeader, s.Companion, s.CompanionWin, s.Offers, s.CtxKind, s.BgKind, s.CtxDeadline, s.Cause, s.OwnCtx, s.Timeout, s.ConnectDelay, s.IgnoreCtx, s.TLS, s.RealTLS, s.StatusBody, s.Wrap, s.Peer, s.RespDelay, s.Segs, s.Gap, s.Trailing, s.RBuf, s.SegMax)
+	return fmt.Sprintf("debug=%d wrapown=%v dlfail=%v bighdr=%v(http=%v) companion=%v/%d offers=%v wwin=%d ctx=%d/%d(dl=%v cause=%v own=%v) timeout=%v connect=%v(ignoreCtx=%v) tls=%v(real=%v) statusBody=%v wrap=%v peer=%d respDelay=%v segs=%d gap=%v trailing=%v rbuf=%d segmax=%d",
+		s.Debug, s.WrapOwn, s.DLFail, s.BigHeader, s.HTTPHeader, s.Companion, s.CompanionWin, s.Offers, s.WriteWin, s.CtxKind, s.BgKind, s.CtxDeadline, s.Cause, s.OwnCtx, s.Timeout, s.ConnectDelay, s.IgnoreCtx, s.TLS, s.RealTLS, s.StatusBody, s.Wrap, s.Peer, s.RespDelay, s.Segs, s.Gap, s.Trailing, s.RBuf, s.SegMax)
 }
 
 // cancelPlan says when the harness cancels the caller's context.
@@ -563,6 +572,12 @@ func dialOnce(sc scenario, plan cancelPlan, o *outcome) {
 			c := newConn(start)
 			c.segMax = sc.SegMax
 			c.writeBlocks = sc.Peer == 3
+			if sc.Peer == 3 && sc.WriteWin > 0 {
+				// The peer takes the first bytes of the request, then stalls:
+				// the write that crosses the window reports a part as written
+				// together with the error that ends it.
+				c.writeBlocks, c.blockAfter = false, sc.WriteWin
+			}
 			c.onRequest = func() {
 				if sc.Peer == 2 {
 					return
@@ -849,6 +864,9 @@ func drawScenario(r *eng.Run) scenario {
 		sc.DLFail = true
 	}
 	sc.HTTPHeader = sc.BigHeader && r.T.Bool(sim.LCfg)
+	if sc.Peer == 3 {
+		sc.WriteWin = []int{0, 0, 1, 10, 100, 300}[r.T.Int(sim.LSize, 6)]
+	}
 	sc.Companion = r.T.Chance(sim.LCfg, 1, 8)
 	if sc.Companion {
 		sc.CompanionWin = 64 * r.T.Int(sim.LSize, 10)
